@@ -141,6 +141,7 @@ func runC11(c *Ctx) {
 	c11Incremental(c)
 	// ---- M6 cursor ---------------------------------------------------------------------------------------------
 	c11Cursor(c)
+	c11Fresh(c)
 }
 
 // onlyUnderUvarintSize: every occurrence of v inside n is an argument of varint.UvarintSize.
@@ -395,6 +396,61 @@ func c11Incremental(c *Ctx) {
 		}
 		c.Check(probe && guarded, "C11.M5-incremental-decoder", "ipld-prime dagcbor › table validated", token.NoPos, "DecodeOptions.Decode probes for trailing bytes only when DontParseBeyondEnd is false", "ipld-prime's decoder no longer matches the table (trailing-content probe not found or not controlled by DontParseBeyondEnd)")
 	}
+}
+
+// c11Fresh: encodings and derived contexts do not share memory with anything that lives on.
+func c11Fresh(c *Ctx) {
+	// every MarshalBinary in the package returns bytes of a buffer it created: an encoding handed out must not be
+	// overwritten by the next one (Metadata.MarshalBinary concatenates protocol encodings; Equal compares them)
+	n := 0
+	for _, f := range c.Funcs(metaPkg) {
+		if f.SSA.Name() != "MarshalBinary" || f.SSA.Signature.Recv() == nil {
+			continue
+		}
+		for _, b := range f.SSA.Blocks {
+			ret, ok := b.Instrs[len(b.Instrs)-1].(*ssa.Return)
+			if !ok || len(ret.Results) != 2 || c.RetX(ret, 1).Op != "nil" {
+				continue
+			}
+			for _, l := range c.Leaves(c.RetX(ret, 0), ret) {
+				m, isBuf := Match(Call("bytes.Buffer).Bytes", Bind("buf")), l)
+				if !isBuf {
+					continue
+				}
+				n++
+				c.Check(freshBuffer(m["buf"]), "C11.M8-encodings-not-shared", f.Name+" › returned bytes", ret.Pos(), "the encoding returned is the contents of a buffer created by this call", "the encoding returned aliases a buffer that outlives the call ("+abbreviate(m["buf"].String())+"): the next encoding overwrites it, so a multiset is no longer the concatenation of its protocols' encodings and Equal compares garbage")
+			}
+		}
+	}
+	c.Floor("C11.M8-encodings-not-shared", 2)
+	// a derived context gets its own protocol table: registering a parser in it must not change the parent (Default)
+	if w := c.Func(metaPkg, "metadataContext.WithProtocol"); w != nil {
+		nU := 0
+		instrs(w.SSA, func(in ssa.Instruction) {
+			mu, ok := in.(*ssa.MapUpdate)
+			if !ok {
+				return
+			}
+			nU++
+			m := strip(c.E(mu.Map))
+			freshMap := m.Op == "makemap"
+			if !freshMap {
+				// a field of a literal built here, initialised with a map made here
+				if m.Op == "field" {
+					if fs := c.CellFields(m.Args[0]); fs[m.Name] != nil && strip(fs[m.Name]).Op == "makemap" {
+						freshMap = true
+					}
+				}
+			}
+			c.Check(freshMap, "C11.M8-derived-context-own-table", w.Name+" › table written", mu.Pos(), "the derived context writes into a protocol table made by this call", "the derived context writes into a protocol table it shares with its parent ("+abbreviate(m.String())+"): registering a parser in a derived context changes how the default context decodes that code")
+		})
+		if nU == 0 {
+			c.Unk("C11.M8-derived-context-own-table", w.Name, w.SSA.Pos(), "no table update found")
+		}
+	} else {
+		c.Unk("C11.M8-derived-context-own-table", "metadata.(*metadataContext).WithProtocol", token.NoPos, "not found")
+	}
+	c.Floor("C11.M8-derived-context-own-table", 1)
 }
 
 func c11Cursor(c *Ctx) {
